@@ -324,3 +324,59 @@ func Verif_C18_independent_readers() {
 		verifrt.Assert(ok, "concurrent independent Readers return what each returns alone")
 	}
 }
+
+// verifView is an interface-typed decode result (as annotation.Annotation or
+// acroform.Field are): a decoder may return a nil verifView without an error.
+type verifView interface{ view() int }
+
+type verifViewImpl struct{ n int }
+
+func (v *verifViewImpl) view() int { return v.n }
+
+// Verif_C18_interface_results: decode functions whose result type is an
+// interface and which may return nil (solver-chosen), called through Decode
+// and DecodeExclusive by two goroutines and once more afterwards: every call
+// returns what it returns alone -- nil stays nil, nobody panics -- and a
+// non-nil result is shared.
+func Verif_C18_interface_results() {
+	ra := NewReference(1, 0)
+	g := &verifSchedGetter{objs: map[Reference]Native{ra: Dict{"K": Integer(1)}}}
+	g.meta.Version = V1_7
+	x := NewExtractor(g)
+	giveNil := verifrt.Bool("nilresult")
+	dec := func(c Cursor, obj Object, isDirect bool) (verifView, error) {
+		if giveNil {
+			return nil, nil
+		}
+		return &verifViewImpl{n: 7}, nil
+	}
+	G := 2
+	results := make([]verifView, G+1)
+	errs := make([]error, G+1)
+	ops := make([]int, G+1)
+	for i := 1; i <= G; i++ {
+		ops[i] = verifrt.Choice("op", 2)
+	}
+	verifrt.StartSched()
+	for i := 1; i <= G; i++ {
+		gid := i
+		verifrt.Go(func() {
+			c := CursorAt(x, nil)
+			if ops[gid] == 0 {
+				results[gid], errs[gid] = Decode(c, ra, dec)
+			} else {
+				results[gid], errs[gid] = DecodeExclusive(c, ra, dec)
+			}
+		})
+	}
+	verifrt.WaitAll()
+	verifrt.Cover("all goroutines finished")
+	later1, err1 := Decode(CursorAt(x, nil), ra, dec)
+	later2, err2 := DecodeExclusive(CursorAt(x, nil), ra, dec)
+	verifrt.Assert(err1 == nil && err2 == nil && errs[1] == nil && errs[2] == nil, "no call reports an error")
+	if giveNil {
+		verifrt.Assert(results[1] == nil && results[2] == nil && later1 == nil && later2 == nil, "a nil result stays nil for every caller")
+	} else {
+		verifrt.Assert(results[1] != nil && results[1] == results[2] && later1 == results[1] && later2 == results[1], "a non-nil result is shared by every caller")
+	}
+}
